@@ -16,6 +16,14 @@ def _write(root, files):
             f.write(content)
 
 
+def _dirs(root):
+    out = set()
+    for d, ds, _ in os.walk(root):
+        for x in ds:
+            out.add(os.path.relpath(os.path.join(d, x), root))
+    return out
+
+
 def _snapshot(root):
     out = {}
     for d, _, fs in os.walk(root):
@@ -44,6 +52,7 @@ class Run:
         self.timed_out = False
         self.created = {}           # relative path -> bytes, files that did not exist before
         self.modified = {}          # relative path -> bytes, files whose content changed
+        self.created_dirs = []      # directories that did not exist before
         self.root = None
 
     @property
@@ -53,7 +62,7 @@ class Run:
     def describe(self):
         return {"argv": self.argv, "cwd": self.cwd, "files": {k: (v if isinstance(v, str) else v.decode("latin-1")) for k, v in self.files.items()},
                 "status": self.status, "stdout": self.stdout.decode("utf-8", "replace")[:2000], "stderr": self.stderr.decode("utf-8", "replace")[:2000],
-                "created": sorted(self.created), "modified": sorted(self.modified), "timed_out": self.timed_out}
+                "created": sorted(self.created), "modified": sorted(self.modified), "created_dirs": self.created_dirs, "timed_out": self.timed_out}
 
 
 def run_all(ctx, runs, workers=16, keep=False):
@@ -67,9 +76,10 @@ def run_all(ctx, runs, workers=16, keep=False):
             shutil.rmtree(root)
         os.makedirs(root)
         _write(root, r.files)
-        before = _snapshot(root)
         cwd = os.path.join(root, r.cwd)
         os.makedirs(cwd, exist_ok=True)
+        before = _snapshot(root)
+        dirs_before = _dirs(root)
         env = dict(os.environ)
         env.update(r.env or {})
         try:
@@ -85,6 +95,7 @@ def run_all(ctx, runs, workers=16, keep=False):
                 r.created[k] = v
             elif before[k] != v:
                 r.modified[k] = v
+        r.created_dirs = sorted(_dirs(root) - dirs_before)
         r.root = root
         if not keep:
             shutil.rmtree(root, ignore_errors=True)
